@@ -270,8 +270,10 @@ Proof. split; vm_compute; reflexivity. Qed.
    was a determinism tautology.  This section states those clauses about model
    functions.
 
-   MODEL FUNCTIONS FOR THE OBSERVERS (defined in Proofs/MoreIter.v next to the
-   runner iter_run; Model/Exec.v computes the same numbers inline, see below):
+   FUNCTIONS FOR THE OBSERVERS.  These are definitions of THIS development
+   (Proofs/MoreIter.v, next to the runner iter_run), NOT functions of Model/:
+   Model/Exec.v computes the same numbers inline (see below, and the SECOND
+   ROUND section, C09_iter_count_is_rest_len, for count()):
      iter_len c        = ret (cursor_len c)                ExactSizeIterator::len
      iter_size_hint c  = ret (cursor_len c, Some (cursor_len c))       size_hint
      iter_count c      = call next() until None (cursor_len c + 1 calls are
@@ -645,3 +647,143 @@ Example C09_example_kinds :
   end /\
   steps_obs (r_item 2) (slots m3) 2 0 3 = [3; 3; 3; 1; 0; 1; 5;  2; 2; 2; 1; 1; 3; 6]%N.
 Proof. vm_compute. repeat split; reflexivity. Qed.
+
+(* ======================================================================== *)
+(* AUDIT CLOSURE, SECOND ROUND for C09 (Proofs/MoreIter.v)
+
+   (5) whole interpreter sessions for the kinds C09_iter_session_obs excludes:
+       C09_set_iter_session_obs   Set::iter: the observation list of the session
+                                  is steps_obs (key of the pair in the slot) ++
+                                  [count of the clone] ++ the clone's slots ++
+                                  [len() of the original afterwards], both numbers
+                                  = len - min steps len; the world is unchanged
+       C09_iter_session_mut_obs   iter_mut / values_mut: steps_obs, the two Debug
+                                  renderings, 0 (not Clone: nothing consumed), the
+                                  final len() = len - min steps len; the content
+                                  afterwards entry by entry; len, cap, log unchanged
+   (6) "writes made through iter_mut or values_mut are exactly what later lookups
+       return", MANY writes:
+       C09_iter_mut_writes_then_get   E any lawful environment on the interpreter's
+                                  element types (C09_example_lawful: env_map of an
+                                  honest script), Uniq keys: after n steps of a
+                                  mutable kind writing wd + j at step j, get(q) for
+                                  the key of ANY entry i returns slot i, which holds
+                                  the same key, the same value object, payload
+                                  wd + i if i < n and the OLD payload otherwise; the
+                                  keys and the value identities of the whole content
+                                  are unchanged
+   (7) count():  iter_count (Proofs/MoreIter.v) is a definition of THIS
+       development (call next() until None, count): the model has no count
+       function.  What the interpreter observes as count() is the LENGTH of what a
+       consumed clone yields (Exec.rest_slots, mirroring `it.clone().count()` in
+       the harness).  C09_iter_count_is_rest_len / _s tie the two: from any cursor
+       over the container, iter_count returns exactly length (rest_slots ...) =
+       cursor_len, and rest_slots yields the slots lo, lo+1, ...
+   ======================================================================== *)
+
+Theorem C09_set_iter_session_obs :
+  forall (steps : nat) (w : world key unit cstate),
+    WF (self w) ->
+    wp (set_iter_session steps)
+       (fun (r : list N) (w' : world key unit cstate) =>
+          let pos := Nat.min steps (len (self w)) in
+          let rest := len (self w) - pos in
+          w' = w /\
+          r = steps_obs (fun p : key * unit => r_key (fst p)) (slots (self w)) steps 0 (len (self w)) ++
+              [nn rest] ++ List.map nn (seq pos rest) ++ [nn rest])
+       (fun _ : world key unit cstate => False) w.
+Proof. exact set_iter_session_obs. Qed.
+Print Assumptions C09_set_iter_session_obs.
+
+Theorem C09_iter_session_mut_obs :
+  forall (kind : N) (steps : nat) (wd : N) (w : world key vobj cstate),
+    WF (self w) -> is_mut_kind kind = true ->
+    wp (iter_session kind steps wd)
+       (fun (r : list N) (w' : world key vobj cstate) =>
+          let rest := len (self w) - Nat.min steps (len (self w)) in
+          (exists d0 d1 : list N,
+             r = steps_obs (r_item kind) (slots (self w)) steps 0 (len (self w)) ++ d0 ++ d1 ++
+                 [0%N] ++ [nn rest]) /\
+          WF (self w') /\ len (self w') = len (self w) /\ cap (self w') = cap (self w) /\
+          log w' = log w /\
+          forall (i : nat) (k : key) (v : vobj),
+            nth_error (Spec.elems (self w)) i = Some (k, v) ->
+            nth_error (Spec.elems (self w')) i =
+              Some (k, if i <? steps then {| vid := vid v; vdat := wd + nn i |} else v))
+       (fun _ : world key vobj cstate => False) w.
+Proof. exact iter_session_mut_obs. Qed.
+Print Assumptions C09_iter_session_mut_obs.
+
+Theorem C09_iter_mut_writes_then_get :
+  forall (E : env key vobj query cstate),
+    Lawful E kcls qcls ->
+    forall (kind wd : N) (n i : nat) (k : key) (v : vobj) (q : query) (w : world key vobj cstate),
+    WF (self w) -> is_mut_kind kind = true -> Uniq kcls (Spec.elems (self w)) ->
+    nth_error (Spec.elems (self w)) i = Some (k, v) -> qcls q = kcls k ->
+    wp (c <- iter ;; _ <- iter_steps kind wd n 0 c [] ;;
+        o <- get E q ;;
+        match o with
+        | Some x => p <- p_ref x ;; ret (Some (x, p))
+        | None => ret None
+        end)
+       (fun (res : option (nat * (key * vobj))) (w' : world key vobj cstate) =>
+          res = Some (i, (k, if i <? n then {| vid := vid v; vdat := wd + nn i |} else v)) /\
+          WF (self w') /\ len (self w') = len (self w) /\ cap (self w') = cap (self w) /\
+          log w' = log w /\ Uniq kcls (Spec.elems (self w')) /\
+          List.map fst (Spec.elems (self w')) = List.map fst (Spec.elems (self w)) /\
+          List.map (fun p : key * vobj => vid (snd p)) (Spec.elems (self w')) =
+            List.map (fun p : key * vobj => vid (snd p)) (Spec.elems (self w)))
+       (fun _ : world key vobj cstate => False) w.
+Proof. exact iter_mut_writes_then_get. Qed.
+Print Assumptions C09_iter_mut_writes_then_get.
+
+Theorem C09_iter_count_is_rest_len :
+  forall (lo hi : nat) (w : world key vobj cstate),
+    WF (self w) -> lo <= hi -> hi <= len (self w) ->
+    wp (x <- iter_count (lo, hi) ;; rest <- rest_slots (cursor_len (lo, hi)) (fst (lo, hi)) ;; ret (x, rest))
+       (fun (y : nat * cursor * list N) (w' : world key vobj cstate) =>
+          w' = w /\ fst (fst y) = length (snd y) /\ fst (fst y) = cursor_len (lo, hi) /\
+          snd y = List.map nn (seq lo (hi - lo)))
+       (fun _ : world key vobj cstate => False) w.
+Proof. exact iter_count_is_rest_len. Qed.
+Print Assumptions C09_iter_count_is_rest_len.
+
+Theorem C09_iter_count_is_rest_len_s :
+  forall (lo hi : nat) (w : world key unit cstate),
+    WF (self w) -> lo <= hi -> hi <= len (self w) ->
+    wp (x <- iter_count (lo, hi) ;; rest <- rest_slots_s (cursor_len (lo, hi)) (fst (lo, hi)) ;; ret (x, rest))
+       (fun (y : nat * cursor * list N) (w' : world key unit cstate) =>
+          w' = w /\ fst (fst y) = length (snd y) /\ fst (fst y) = cursor_len (lo, hi) /\
+          snd y = List.map nn (seq lo (hi - lo)))
+       (fun _ : world key unit cstate => False) w.
+Proof. exact iter_count_is_rest_len_s. Qed.
+Print Assumptions C09_iter_count_is_rest_len_s.
+
+(* non-vacuity: values_mut (kind 4, wd 50), 2 steps over m3, then get(class 6)
+   and get(class 7): slot 1 holds payload 51 (written), slot 2 its old payload 9;
+   hypotheses: C09_example_lawful, C09_example_uniq *)
+Example C09_example_writes_then_get :
+  match (c <- iter ;; _ <- iter_steps 4 50 2 0 c [] ;;
+         o <- get (env_map C09_sc0) (QCls 6) ;;
+         match o with Some x => p <- p_ref x ;; ret (Some (x, p)) | None => ret None end) (w_of m3) with
+  | Ok res _ => res = Some (1, (k_ 3 6, v_ 4 51))
+  | _ => False
+  end /\
+  match (c <- iter ;; _ <- iter_steps 4 50 2 0 c [] ;;
+         o <- get (env_map C09_sc0) (QCls 7) ;;
+         match o with Some x => p <- p_ref x ;; ret (Some (x, p)) | None => ret None end) (w_of m3) with
+  | Ok res _ => res = Some (2, (k_ 5 7, v_ 6 9))
+  | _ => False
+  end.
+Proof. vm_compute. split; reflexivity. Qed.
+
+(* a Set::iter session of 1 step over a 2-element set: hints 2 2 2, item = key of
+   slot 0, then count of the clone 1, its slot 1, len() 1 *)
+Example C09_example_set_session :
+  match set_iter_session 1
+          {| cb := cs0; log := [];
+             self := {| len := 2; slots := [Some (k_ 1 5, tt); Some (k_ 2 6, tt); None] |} |} with
+  | Ok r _ => r = [2; 2; 2; 1; 0; 1; 5;  1;  1;  1]%N
+  | _ => False
+  end.
+Proof. vm_compute. reflexivity. Qed.
